@@ -124,8 +124,8 @@ class IncludeNode(ConfigNode):
         ret = subbuilder.build().ayns.on_preprocess(path, builder)
         if self._priority is not None:
             # a priority tag on a container applies to everything below it - also to what is included there
+            # (the included documents are merged with each other first, see StreamNode)
             ret._priority = self._priority
-            ret._propagate_priority()
         return ret
 
 
